@@ -561,8 +561,8 @@ func (x *TopicsIndex) scanMessages(filter string, d int, n *particle, pks []pack
 			}
 
 			if !hasNext || parentOfHash {
-				if adjacent.retainPath != "" {
-					if pk, ok := x.Retained.Get(adjacent.retainPath); ok {
+				if path := adjacent.retained(); path != "" {
+					if pk, ok := x.Retained.Get(path); ok {
 						pks = append(pks, pk)
 					}
 				}
@@ -577,15 +577,15 @@ func (x *TopicsIndex) scanMessages(filter string, d int, n *particle, pks []pack
 
 	if particle := n.particles.get(key); particle != nil {
 		if hasNext {
-			if parentOfHash && particle.retainPath != "" {
-				if pk, ok := x.Retained.Get(particle.retainPath); ok {
+			if path := particle.retained(); parentOfHash && path != "" {
+				if pk, ok := x.Retained.Get(path); ok {
 					pks = append(pks, pk)
 				}
 			}
 			return x.scanMessages(filter, d+1, particle, pks)
 		}
 
-		if pk, ok := x.Retained.Get(particle.retainPath); ok {
+		if pk, ok := x.Retained.Get(particle.retained()); ok {
 			pks = append(pks, pk)
 		}
 	}
@@ -794,6 +794,14 @@ type particle struct {
 	inlineSubscriptions *InlineSubscriptions // a map of inline subscriptions for this particle
 	retainPath          string               // path of a retained message
 	sync.Mutex                               // mutex for when making changes to the particle
+}
+
+// retained returns the path of the retained message stored at the particle, if any.
+// RetainMessage writes the path under the particle's mutex while queries run unlocked.
+func (p *particle) retained() string {
+	p.Lock()
+	defer p.Unlock()
+	return p.retainPath
 }
 
 // newParticle returns a pointer to a new instance of particle.
